@@ -15,3 +15,4 @@ META = {
 def run(rep):
     cr.rule_skel(rep)
     cr.rule_fields(rep)
+    cr.rule_input(rep, "C06.isolation")
